@@ -5,6 +5,7 @@
 //!                                   outcome (shape data) of covariance(tensor, fd))
 //!   (14 5 ty (x ..))            softmax   -> list
 //!   (14 6 ty p r)               f1_score  -> value
+//!   (14 7 ((m e) ..))           float oracle: softmax over f64 values m * 10^e -> four 0/1 flags
 //! Every input form that must agree is exercised and cross-checked here (`inconsistent(code)`).
 use crate::guarded;
 use crate::num::{dec_list, enc_list, Enc};
@@ -22,8 +23,50 @@ pub fn run(args: &[Sx]) -> Sx {
     if args.len() < 2 {
         return bad_case();
     }
+    if args[0].i64() == Some(7) && args.len() == 2 {
+        return float_oracle(&args[1]);
+    }
     let (Some(op), Some(ty)) = (args[0].i64(), args[1].i64()) else { return bad_case() };
     with_ty!(ty, go(op, &args[2..]))
+}
+
+/// Property oracle on f64 (large magnitudes, stability): same length, finite and non-negative,
+/// sums to one within 1e-9, order preserved (weakly: tiny values may underflow to equal outputs).
+/// Floats are never printed or compared with the model: only the four flags are.
+fn float_oracle(xs: &Sx) -> Sx {
+    let Some(items) = xs.list() else { return bad_case() };
+    let mut data: Vec<f64> = vec![];
+    for it in items {
+        let Some(p) = it.list() else { return bad_case() };
+        if p.len() != 2 {
+            return bad_case();
+        }
+        let (Some(m), Some(e)) = (p[0].i64(), p[1].i64()) else { return bad_case() };
+        let Ok(v) = format!("{}e{}", m, e).parse::<f64>() else { return bad_case() };
+        if !v.is_finite() {
+            return bad_case();
+        }
+        data.push(v);
+    }
+    let out = linear_algebra::softmax(data.iter().cloned());
+    let len_ok = out.len() == data.len();
+    let nonneg = out.iter().all(|y| y.is_finite() && *y >= 0.0);
+    let sum: f64 = out.iter().sum();
+    let sums = if data.is_empty() { out.is_empty() } else { (sum - 1.0).abs() < 1e-9 };
+    let mut order = len_ok;
+    if len_ok {
+        for i in 0..data.len() {
+            for j in 0..data.len() {
+                if data[i] < data[j] && !(out[i] <= out[j]) {
+                    order = false;
+                }
+                if data[i] == data[j] && out[i] != out[j] {
+                    order = false;
+                }
+            }
+        }
+    }
+    l(vec![boolean(len_ok), boolean(nonneg), boolean(sums), boolean(order)])
 }
 
 fn outcome<T: Enc>(r: Option<T>) -> Sx {
